@@ -43,6 +43,7 @@ type Profile struct {
 	PGlobal       int  // % of cases run with a global conf.Coercers override (String, Bool or Time) installed
 	PStructIn     int  // % of top-level struct records handed over as a Go struct value instead of a map
 	PTopPtrRecord int  // % of top-level schemas that are Ptr(Struct) over a flat record with exported keys
+	PManyNil      int  // % of cases that validate a record holding a long list (64 and more) of items whose optional pointers are mostly nil, next to pointer fields of its own
 	PTypedRoot    int  // % of CustomFunc / Preprocess nodes drawn for the root that stay the root (their typed Parse / Validate)
 	PSiblings     int  // % of top-level structs given a catching string field whose test usually fails, next to a slice or struct field with at least two tests
 	PRewrite      int  // % of slices of strings whose item schema rewrites items in place (Catch over a failing test, Default over a zero item) under a slice test about the contents
@@ -74,6 +75,9 @@ type Gen struct {
 	keyN   int
 
 	forceExported bool
+	manyNil       bool // the schema just drawn is the long-list-of-nil-pointers record (NewCase validates it)
+	longNil       bool // DestValue: lists of composite items are long, pointers below them mostly nil
+	underLong     int
 	aliasPtrs     bool // DestValue may let pointer fields of one type share their pointee (values validated in place only)
 }
 
@@ -585,12 +589,29 @@ func (g *Gen) rewriteScenario(n *Node) {
 }
 
 func (g *Gen) Schema() *Node {
+	g.manyNil = false
+	if g.P.PManyNil > 0 && g.R.Fork(0x9a11).P(g.P.PManyNil) {
+		// a record with a long list of items, each with an optional pointer that is mostly nil, and pointer fields of
+		// its own: what is reported for one field does not depend on how many nodes were visited before it
+		g.manyNil = true
+		item := &Node{Kind: KStruct, Fields: []Field{
+			{Key: "note", Node: &Node{Kind: KPtr, Elem: g.prim(KString)}},
+			{Key: "qty", Node: g.prim(KInt)}}}
+		root := &Node{Kind: KStruct, Fields: []Field{
+			{Key: "items", Node: &Node{Kind: KSlice, Elem: item}},
+			{Key: "owner", Node: &Node{Kind: KPtr, Elem: g.prim(KString)}},
+			{Key: "alt", Node: &Node{Kind: KPtr, Elem: g.prim(Pick(g.R, []string{KInt, KString, KBool}))}}}}
+		if g.R.P(50) {
+			root.Fields[0], root.Fields[1] = root.Fields[1], root.Fields[0]
+		}
+		return root
+	}
 	if g.P.PTypedRoot > 0 && g.R.Fork(0x7007).P(g.P.PTypedRoot) {
 		// CustomFunc / Preprocess as the execution root: their own typed Parse / Validate entry points
 		if g.R.P(45) {
 			t := TestSpec{ID: g.id(), User: g.userPred(KCustom)}
 			g.opts(&t)
-			return &Node{Kind: KCustom, Tests: []TestSpec{t}, CustomMut: g.R.P(25)}
+			return &Node{Kind: KCustom, Tests: []TestSpec{t}}
 		}
 		inner := g.prim(KString)
 		inner.Coercer = ""
@@ -707,6 +728,7 @@ func ProfileByName(name string) Profile {
 		p.Repeats = 7
 		p.PIssuePath = 12 // issues filed under another node's key: the key's list is built from several visits
 		p.PCustomTpl = 12
+		p.PManyNil = 3
 	case "C12":
 		p.PUserTest = 60
 		p.PPT = 50
